@@ -10,7 +10,7 @@ from __future__ import annotations
 import ast
 
 from ..astutil import ancestors, calls_in, dotted, enclosing_stmt, is_within, kwarg, src, walk_local
-from ..cfg import cfg_of
+from ..cfg import cfg_of, deref_at
 from ..loader import AnalysisError
 from ..terms import Evaluator, backend_method, contains, find, show, walk
 from . import shared
@@ -412,6 +412,7 @@ def r6_table(ctx):
         if isinstance(n, ast.Dict):
             for k, v in zip(n.keys, n.values):
                 if isinstance(k, ast.Constant) and k.value == 'chunks':
+                    v = deref_at(snap.node, v) if isinstance(v, ast.Name) else v  # the list may be kept in a local first
                     names = [x.id for x in ast.walk(v) if isinstance(x, ast.Name) and x.id not in ('list', 'tuple', 'sorted')]
                     if names:
                         table = names[0]
